@@ -799,35 +799,90 @@ theorem expandFields_shape (sty decl : Nat) (fs : List (String × Nat)) {provs p
       simp only [mkFieldProv] at this
       rw [this]; simp [mkFieldProv]
 
+theorem pass2Round_shape {sps spsB : List PSpec} (hsh : Shaped sps spsB) {provs : List PSpec}
+    {m : SupMap} {r : List PSpec × SupMap × List PSpec} (h : pass2Round sps provs m = .ok r) :
+    ∃ ex dB, r.1 = provs ++ ex ∧ Shaped r.2.2 dB ∧ ∀ provsB : List PSpec, provsB.length = provs.length →
+      pass2Round spsB provsB m = .ok (provsB ++ ex, r.2.1, dB) := by
+  induction hsh generalizing provs m r with
+  | nil =>
+    rw [pass2Round_nil] at h
+    cases h
+    exact ⟨[], [], by simp, .nil, fun provsB _ => by simp [pass2Round_nil]⟩
+  | @cons a b l l' hab _ ih =>
+    obtain ⟨_, _, hst, hd, hf⟩ := hab
+    cases hlk : m.lookup a.structTy with
+    | none =>
+      rw [pass2Round_cons_none _ _ hlk] at h
+      cases hr : pass2Round l provs m with
+      | error e => rw [hr] at h; cases h
+      | ok r1 =>
+        rw [hr] at h; cases h
+        obtain ⟨ex, dB, he, hsd, hB⟩ := ih hr
+        refine ⟨ex, b :: dB, he, .cons ⟨by assumption, by assumption, hst, hd, hf⟩ hsd, ?_⟩
+        intro provsB hlen
+        rw [pass2Round_cons_none _ _ (by rw [← hst]; exact hlk), hB provsB hlen]
+    | some v =>
+      rw [pass2Round_cons_some _ _ hlk] at h
+      cases he : expandFields a.structTy a.decl a.fields provs m with
+      | error e => rw [he] at h; cases h
+      | ok r1 =>
+        rw [he] at h
+        obtain ⟨provs1, m1⟩ := r1
+        obtain ⟨ex1, he1, hB1⟩ := expandFields_shape _ _ _ he
+        obtain ⟨ex2, dB, he2, hsd, hB2⟩ := ih h
+        refine ⟨ex1 ++ ex2, dB, by rw [he2]; simp only; rw [he1]; simp, hsd, ?_⟩
+        intro provsB hlen
+        rw [pass2Round_cons_some _ _ (by rw [← hst]; exact hlk), ← hst, ← hd, ← hf, hB1 provsB hlen]
+        simp only
+        rw [hB2 (provsB ++ ex1) (by rw [he1]; simp [hlen])]
+        simp
+
+theorem pass2Rounds_shape (fuel : Nat) : ∀ {sps spsB : List PSpec}, Shaped sps spsB → ∀ {provs provs' : List PSpec}
+    {m m' : SupMap}, pass2Rounds fuel sps provs m = .ok (provs', m') →
+    ∃ ex, provs' = provs ++ ex ∧ ∀ provsB : List PSpec, provsB.length = provs.length →
+      pass2Rounds fuel spsB provsB m = .ok (provsB ++ ex, m') := by
+  induction fuel with
+  | zero =>
+    intro sps spsB hsh provs provs' m m' h
+    cases hsh with
+    | nil =>
+      rw [pass2Rounds_nil] at h; cases h
+      exact ⟨[], by simp, fun provsB _ => by simp [pass2Rounds_nil]⟩
+    | cons hab hl => simp only [pass2Rounds] at h; cases h
+  | succ fuel ih =>
+    intro sps spsB hsh provs provs' m m' h
+    cases hsh with
+    | nil =>
+      rw [pass2Rounds_nil] at h; cases h
+      exact ⟨[], by simp, fun provsB _ => by simp [pass2Rounds_nil]⟩
+    | @cons a b l l' hab hl =>
+      have hsh : Shaped (a :: l) (b :: l') := .cons hab hl
+      rw [pass2Rounds_succ_cons] at h
+      cases hr : pass2Round (a :: l) provs m with
+      | error e => rw [hr] at h; cases h
+      | ok r =>
+        rw [hr] at h
+        simp only at h
+        by_cases hnp : r.2.2.length = (a :: l).length
+        · rw [if_pos hnp] at h; cases h
+        · rw [if_neg hnp] at h
+          obtain ⟨ex1, dB, he1, hsd, hB1⟩ := pass2Round_shape hsh hr
+          obtain ⟨ex2, he2, hB2⟩ := ih hsd h
+          refine ⟨ex1 ++ ex2, by rw [he2, he1]; simp, ?_⟩
+          intro provsB hlen
+          rw [pass2Rounds_succ_cons, hB1 provsB hlen]
+          simp only
+          rw [if_neg (by rw [← shaped_length hsd, ← shaped_length hsh]; exact hnp),
+            hB2 (provsB ++ ex1) (by rw [he1]; simp [hlen])]
+          simp
+
 theorem pass2_shape {sps spsB : List PSpec} (hsh : Shaped sps spsB) {provs provs' : List PSpec}
     {m m' : SupMap} (h : pass2 sps provs m = .ok (provs', m')) :
     ∃ ex, provs' = provs ++ ex ∧ ∀ provsB : List PSpec, provsB.length = provs.length →
       pass2 spsB provsB m = .ok (provsB ++ ex, m') := by
-  induction hsh generalizing provs m with
-  | nil =>
-    simp only [pass2, pure, Except.pure] at h
-    cases h
-    exact ⟨[], by simp, fun provsB _ => by simp [pass2, pure, Except.pure]⟩
-  | @cons a b l l' hab _ ih =>
-    obtain ⟨_, _, hst, hd, hf⟩ := hab
-    simp only [pass2, bind, Except.bind] at h
-    split at h
-    · cases h
-    · rename_i hl
-      split at h
-      · cases h
-      · rename_i r hr
-        obtain ⟨provs1, m1⟩ := r
-        simp only at h
-        obtain ⟨ex1, he1, hB1⟩ := expandFields_shape _ _ _ hr
-        obtain ⟨ex2, he2, hB2⟩ := ih h
-        refine ⟨ex1 ++ ex2, by rw [he2, he1]; simp, ?_⟩
-        intro provsB hlen
-        simp only [pass2, bind, Except.bind, ← hst, ← hd, ← hf, hl]
-        rw [hB1 provsB hlen]
-        simp only
-        rw [hB2 (provsB ++ ex1) (by rw [he1]; simp [hlen])]
-        simp
+  unfold pass2 at h ⊢
+  rw [← shaped_length hsh]
+  exact pass2Rounds_shape _ hsh h
 
 /-- the supplier map of a declaration is the same when providers are changed in `requires`, `isAsync`, `isErr`
     only: same suppliers, same synthetic field providers -/
